@@ -491,6 +491,24 @@ func (o *hobj) roundTripPack(l *ledger) {
 	}
 	l.hold("ToBytesPack", enc)
 	l.verify()
+	{
+		// the padded form the agent encrypts: the same pack bytes, then padding
+		l.opf("ToBytesPackECB(%s, 16)", o.id)
+		var ecb []byte
+		if p := vlib.Catch(func() { ecb = pack.ToBytesPackECB(o.gp, 16) }); p != nil {
+			c.Fail(name+":encode-panics/history", fmt.Sprintf("%s: ToBytesPackECB(%s) panics: %v", l.where, o.id, p), histDetail(l, o, nil))
+		} else {
+			l.hold("ToBytesPackECB", ecb)
+			l.verify()
+			if len(ecb) < len(enc) || !bytes.Equal(ecb[:len(enc)], enc) {
+				key := "ToBytesPackECB:differs-from-ToBytesPack"
+				if !cheap(key) {
+					c.Fail(key, fmt.Sprintf("%s: ToBytesPackECB(%s) does not start with the bytes ToBytesPack gave for the same pack", l.where, o.id),
+						histDetail(l, o, map[string]interface{}{"ecb": hexFull(ecb), "plain": hexFull(enc)}))
+				}
+			}
+		}
+	}
 
 	// read it back
 	l.opf("read %s back", o.id)
@@ -866,7 +884,7 @@ func historyCase(section string, i int, r *vlib.Rand) {
 func historySections(race bool) {
 	nSeq, nPar := c.N(3000, 60000), c.N(3000, 60000)
 	if race {
-		nSeq, nPar = c.N(200, 4000), c.N(800, 16000)
+		nSeq, nPar = c.N(160, 4000), c.N(640, 16000)
 	}
 	c.Cases("history", nSeq, func(i int, r *vlib.Rand) {
 		historyCase("history", i, r)
